@@ -30,5 +30,11 @@ func EncodeVersion(data []byte, version uint16) string {
 // EncodeBase58Check encodes the given data as a base58-checksummed string.
 func Encode(data []byte) string {
 	hashed := bhash.DoubleSha256(data)
-	return base58.Encode(append(data, hashed[:4]...))
+
+	// Copy into a fresh buffer: appending to data itself could write the
+	// checksum into spare capacity of the caller's backing array.
+	checksummed := make([]byte, 0, len(data)+4)
+	checksummed = append(checksummed, data...)
+	checksummed = append(checksummed, hashed[:4]...)
+	return base58.Encode(checksummed)
 }
